@@ -31,7 +31,7 @@ def render(par, esc):
     """ProcTree initial state -> cprobe tree spec of the root's children; returns (spec, nodes)"""
     n = len(par)
     kids = {i: [c for c in range(2, n + 1) if par[c - 1] == i] for i in range(1, n + 1)}
-    flag = {"none": "", "setsid": "s", "setpgid": "g", "daemon": "d"}
+    flag = {"none": "", "setsid": "s", "setpgid": "g", "daemon": "d", "untraced": "u"}
     created = [1]
 
     def node(i):
@@ -110,7 +110,7 @@ def run(ctx):
         if b["kind"] == "tree":
             o = tobs[b["i"] - 1]
             what = "hang" if o["r"] == "hang" else "alive" if o["alive"] else "zombie" if o["zombies"] else "initkids"
-            esc = "".join(sorted(set(ch for ch in o["tree"] if ch in "sgd"))) or "-"
+            esc = "".join(sorted(set(ch for ch in o["tree"] if ch in "sgdu"))) or "-"
             ctx.violation("tree:%s:%s:end=%s:esc=%s" % (o["runner"], what, o["end"], esc),
                           "after the run returned: alive=%d zombies=%d init children=%d r=%s" % (o["alive"], o["zombies"], o["initkids"], o["r"]), o)
         else:
